@@ -225,6 +225,21 @@ var allOracles = []Oracle{
 	{"C13", func(tr *Trace) (string, string) {
 		switch tr.Type {
 		case "slow_close":
+			if tr.A1 >= 0 && !tr.Reconfigured && tr.EosAt >= 0 && !plain(tr) {
+				// interrupted and restarted (same attributes, every run with the toxic applied): the
+				// close is still withheld for at least the delay (each restart waits afresh)
+				all := len(tr.Active) > 0
+				for _, a := range tr.Active {
+					all = all && a
+				}
+				if all {
+					for _, sm := range tr.Samples {
+						if sm.Op >= tr.EosOp && sm.Closed && sm.T < tr.EosAt+tr.A1*ms {
+							return "e2:C13:close-early-after-interrupt", fmt.Sprintf("close forwarded %d ns after the sender's close, before delay %d ms (the toxic was interrupted during the delay)", sm.T-tr.EosAt, tr.A1)
+						}
+					}
+				}
+			}
 			if !plain(tr) || tr.A1 < 0 {
 				return "", ""
 			}
@@ -308,6 +323,13 @@ var allOracles = []Oracle{
 		// applied as a whole or not at all, decided by draw < toxicity: observable with the
 		// black-holing timeout toxic (applied: nothing passes; not applied: everything passes)
 		if tr.Type != "timeout" || len(tr.StartAt) != 1 || len(tr.IntrAt) != 0 || tr.Reconfigured || !tr.SinkAlways {
+			return "", ""
+		}
+		if tr.Tox > 0 && tr.Tox < 1 && (len(tr.DrawUsed) == 0 || !tr.DrawUsed[0]) {
+			// the decision was not taken from the scripted draw (the code has a random source of
+			// its own): what "draw < toxicity" means here is unknown - the model/implementation
+			// comparison reports the broken tie, and the independence probe of E3 looks for a
+			// failing input
 			return "", ""
 		}
 		out := cat(tr.Out)
